@@ -113,11 +113,15 @@ type scopeRun struct {
 	sepS     string
 	how      map[int]scopeHow
 	// conservation oracle (C01 clause, independent of the model): per counter identity name|tags
-	consLive  map[string]int64 // sum of increments made while the metric's scope (and the root) was live
-	consFuzzy map[string]bool  // an increment was made through a handle of a closed scope: need not be delivered
-	consGot   map[string]int64 // sum of deltas the reporter received
-	mScope    map[int]int      // metric id -> scope id it was obtained from
-	mNT       map[int]string   // metric id -> name|tags token as the reporter will see it
+	consLive  map[string]int64  // sum of increments made while the metric's scope (and the root) was live
+	consFuzzy map[string]bool   // an increment was made through a handle of a closed scope: need not be delivered
+	consGot   map[string]int64  // sum of deltas the reporter received
+	gLast     map[string]string // gauge identity -> bits of the last value set while its scope (and the root) was live
+	gFuzzy    map[string]bool   // a value was set through a handle of a closed scope: need not be delivered
+	gGot      map[string]string // gauge identity -> bits of the last value the reporter received
+	noSan     bool              // no sanitizer configured: one object per identity is promised outright
+	mScope    map[int]int       // metric id -> scope id it was obtained from
+	mNT       map[int]string    // metric id -> name|tags token as the reporter will see it
 	rootDead  bool
 	// histogram bounds oracle (C03/C11/C20 clause, independent of the model): every bucket a histogram
 	// delivers or shows in a snapshot is a bucket of the specification it was created with
@@ -170,6 +174,9 @@ func (sr *scopeRun) events() string {
 			}
 		case "gauge":
 			out = append(out, fmt.Sprintf("g|%s|%s", nt, f64hex(e.F)))
+			if sr.gGot != nil {
+				sr.gGot[nt] = f64hex(e.F)
+			}
 		case "timer":
 			out = append(out, fmt.Sprintf("t|%s|%d", nt, e.I))
 		case "hval":
@@ -313,6 +320,36 @@ func (sr *scopeRun) noteCounter(m tally.Counter, p int, name string) {
 	}
 	sr.mScope[id] = p
 	sr.mNT[id] = hxs(full) + "|" + mapHex(tally.VerifScopeTags(sr.scopes[p]))
+}
+
+// noteGauge / noteUpd: the same bookkeeping for gauges ("the most recent delivery carries the latest value", C02,
+// judged at the end of the program per name|tags, whichever handle the value was set through)
+func (sr *scopeRun) noteGauge(m tally.Gauge, p int, name string) {
+	if sr.scopes[p] == tally.NoopScope {
+		return
+	}
+	id, _ := strconv.Atoi(sr.midOf(m, "gauge"))
+	if _, ok := sr.mNT[id]; ok {
+		return
+	}
+	full := sr.san.Name(name)
+	if pfx := tally.VerifScopePrefix(sr.scopes[p]); pfx != "" {
+		full = pfx + sr.sepS + full
+	}
+	sr.mScope[id] = p
+	sr.mNT[id] = hxs(full) + "|" + mapHex(tally.VerifScopeTags(sr.scopes[p]))
+}
+
+func (sr *scopeRun) noteUpd(mid int, v float64) {
+	nt, ok := sr.mNT[mid]
+	if !ok {
+		return
+	}
+	if sr.rootDead || sr.closed[0] || sr.closed[sr.mScope[mid]] {
+		sr.gFuzzy[nt] = true
+		return
+	}
+	sr.gLast[nt] = f64hex(v)
 }
 
 func (sr *scopeRun) noteInc(mid int, v int64) {
@@ -576,7 +613,7 @@ func scopeKeyCases(c *Ctx, n int) {
 func runScopeProgram(c *Ctx, r *Rng, mode string) {
 	sr := &scopeRun{c: c, r: r, scopeID: map[tally.Scope]int{}, metricID: map[interface{}]int{}, closed: map[int]bool{},
 		histB: map[int][][2]string{}, histKind: map[int]string{}, how: map[int]scopeHow{}, sigBase: "scope-" + mode + "-", depth: map[int]int{},
-		consLive: map[string]int64{}, consFuzzy: map[string]bool{}, consGot: map[string]int64{}, mScope: map[int]int{}, mNT: map[int]string{},
+		consLive: map[string]int64{}, consFuzzy: map[string]bool{}, consGot: map[string]int64{}, gLast: map[string]string{}, gFuzzy: map[string]bool{}, gGot: map[string]string{}, mScope: map[int]int{}, mNT: map[int]string{},
 		histPairs: map[string]map[string]bool{}, histUps: map[string]map[string]bool{}}
 	sg := genSan(r)
 	aliasMode = false
@@ -593,6 +630,7 @@ func runScopeProgram(c *Ctx, r *Rng, mode string) {
 		}
 	}
 	sr.san = tally.NewNoOpSanitizer()
+	sr.noSan = sg.opts == nil
 	if sg.opts != nil {
 		sr.san = tally.NewSanitizer(*sg.opts)
 	}
@@ -636,10 +674,17 @@ func runScopeProgram(c *Ctx, r *Rng, mode string) {
 	rootTok := mapHex(rootTags)
 	opts := tally.ScopeOptions{Prefix: pfx, Separator: sep, Tags: rootTags, SanitizeOptions: sg.opts, OmitCardinalityMetrics: true}
 	defb := "-"
-	if r.Chance(15) {
+	switch w := r.Intn(100); {
+	case w < 9:
 		b := toDurs([]int64{5e6, 1e6, 5e6})
 		opts.DefaultBuckets = b
 		defb = specTok(b)
+	case w < 15:
+		b := tally.ValueBuckets{2.5, 1, 2.5, 7}
+		opts.DefaultBuckets = b
+		defb = specTok(b)
+	case w < 19: // a default specification without bounds counts as "not configured": the library's default buckets
+		opts.DefaultBuckets = []tally.Buckets{tally.ValueBuckets{}, tally.DurationBuckets{}}[r.Intn(2)]
 	}
 	// the library's own cardinality gauges (on by default in the library): a third of the programs with a
 	// reporter keep them, with 0-2 extra tags (now and then overriding one of the default keys)
@@ -882,6 +927,7 @@ func runScopeProgram(c *Ctx, r *Rng, mode string) {
 				sr.say(fmt.Sprintf("counter %d %s => %s %s", p, hxs(name), sr.midOf(m, "counter"), sr.events()), "metric")
 			case 1:
 				m := sr.scopes[p].Gauge(name)
+				sr.noteGauge(m, p, name)
 				sr.say(fmt.Sprintf("gauge %d %s => %s %s", p, hxs(name), sr.midOf(m, "gauge"), sr.events()), "metric")
 			case 2:
 				m := sr.scopes[p].Timer(name)
@@ -904,6 +950,11 @@ func runScopeProgram(c *Ctx, r *Rng, mode string) {
 					b = collidingSpecs[r.Intn(len(collidingSpecs))]
 					c.Cov.Hit("hist.colliding-spec")
 				}
+				if r.Chance(8) {
+					// a non-nil specification without bounds: one bucket of its own kind, not the default buckets
+					b = []tally.Buckets{tally.ValueBuckets{}, tally.DurationBuckets{}}[r.Intn(2)]
+					c.Cov.Hit("hist.empty-spec")
+				}
 				sr.noteHist(p, name, b)
 				m := sr.scopes[p].Histogram(name, b)
 				sr.say(fmt.Sprintf("hist %d %s %s => %s %s", p, hxs(name), specTok(b), sr.midOf(m, "hist"), sr.events()), "metric")
@@ -925,6 +976,7 @@ func runScopeProgram(c *Ctx, r *Rng, mode string) {
 					v = c02ValuePool[r.Intn(len(c02ValuePool))]
 				}
 				m.Update(v)
+				sr.noteUpd(mid, v)
 				sr.say(fmt.Sprintf("upd %d %s => %s", mid, f64hex(v), sr.events()), "record")
 			case tally.Timer:
 				d := int64(r.Range(-2, 1000)) * 1e6
@@ -1126,6 +1178,39 @@ func runScopeProgram(c *Ctx, r *Rng, mode string) {
 				c.Cov.Fail(Failure{Kind: "violated", Clause: "conservation", Signature: sr.sigBase + "conservation",
 					Line:   strings.Join(sr.lines, " ; "),
 					Reply:  fmt.Sprintf("counter %s: increments applied while its scope was live add up to %d, deliveries add up to %d (after a final pass and the root's Close)", nt, sr.consLive[nt], sr.consGot[nt]),
+					Detail: strings.Join(sr.lines, "\n")})
+				break
+			}
+		}
+	}
+	if sr.log() != nil && sr.noSan {
+		// gauges: after the final pass and the root's Close the reporter's most recent value of every gauge identity
+		// is the last value set through any live handle (without a sanitizer one identity is one object, so "last" is
+		// program order). Skipped when deliveries arrived under an identity no metric of the program has.
+		known := map[string]bool{}
+		for _, nt := range sr.mNT {
+			known[nt] = true
+		}
+		ok := true
+		for nt := range sr.gGot {
+			if !known[nt] && !strings.HasPrefix(nt, hxs("tally.internal.")) {
+				ok = false
+			}
+		}
+		gnts := make([]string, 0, len(sr.gLast))
+		for nt := range sr.gLast {
+			gnts = append(gnts, nt)
+		}
+		sort.Strings(gnts)
+		for _, nt := range gnts {
+			if !ok || sr.gFuzzy[nt] {
+				continue
+			}
+			c.Cov.Hit("gauge-latest.checked")
+			if sr.gGot[nt] != sr.gLast[nt] {
+				c.Cov.Fail(Failure{Kind: "violated", Clause: "latest-value", Signature: sr.sigBase + "gauge-latest-value",
+					Line:   strings.Join(sr.lines, " ; "),
+					Reply:  fmt.Sprintf("gauge %s: last value set while its scope was live %s, last value the reporter received %q (after a final pass and the root's Close)", nt, sr.gLast[nt], sr.gGot[nt]),
 					Detail: strings.Join(sr.lines, "\n")})
 				break
 			}
